@@ -13,8 +13,18 @@ Streams
   tb     Toolbox aliases: frozen + call arguments, keyword override, decoration, picklability.
   tbcls  creator-made classes registered directly as alias functions (with / without frozen arguments), pickled.
   clash  (inside obj and fresh) pickles are loaded while the same class NAMES are bound to different classes
-         (re-created with other weights / class attributes in this interpreter, or defined by the fresh
-         interpreter itself before loading): the result must be equivalent to the ORIGINAL class.
+         (re-created in this interpreter, or defined by the fresh interpreter itself before loading — with other
+         keyword names, or with the SAME keyword names and other values: weights, typecode, class-level
+         constants): the result must be equivalent to the ORIGINAL class.
+  hist   histories create / re-create / delete / new / dump / load over one creator namespace, every base type and
+         every protocol; each load is checked by the oracle against the object that was dumped, and the whole
+         history is replayed by the Lean namespace model (Heap.metaCreate / unbind / dumpP / loadP): the loaded graph
+         with identity-free class descriptions, and the final bindings, must agree.
+  gp     GP node objects under histories of renameArguments (name != str(value)): pickle round trip of a tree over
+         the set, every slot of every node compared (oracle) and against Heap.Gp (renameArguments, getstate/setstate).
+  Fitness classes with per-instance containers of their own (creator.create("Fit", base.Fitness, weights=..,
+  notes=list)) are in the obj stream: what a copy does with them is outside the statement's equalities (DESIGN
+  section 6), sharing them with the original is not.
 """
 import array
 import copy
@@ -47,10 +57,13 @@ RULE = ("structured enumeration: every base (list, array b/i/d, ndarray int/floa
         "fitness invalid/valid x 1..3 objectives x attribute configurations (none, per-instance list/dict/set, "
         "strategy array, nested created class, class-level mutable, extra nested mutables with internal aliasing, "
         "ndarray/array attributes, second fitness) x content sizes 0,1,3; plus random attribute graphs; every case "
-        "is cloned in chains of 1..3, pickled with protocols 0..5 here, and (fresh stream) in a new interpreter. "
+        "is cloned in chains of 1..3, pickled with protocols 0..5 here, and (fresh stream) in a new interpreter; "
+        "the pickles are loaded again after the class names were re-created with other keyword names / the same names "
+        "and other values; namespace histories (create, re-create, delete, new, dump, load) per base type; trees over "
+        "primitive sets with renamed arguments (six fixed histories incl. swap and rename-back, plus random ones). "
         "Non-trivial = distinct case with at least one mutable attribute or non-empty content")
 EXHAUSTIVE = {"quick": False, "thorough": False}
-TIME_BUDGET = {"quick": 75, "thorough": 900}
+TIME_BUDGET = {"quick": 60, "thorough": 900}
 CASE_TIMEOUT = 240
 MIN_CASES = 1500
 TRUSTED = ["CPython copy.deepcopy / pickle / copyreg / functools.partial dispatch (which hook is called for which "
@@ -71,8 +84,11 @@ ASSUMPTIONS = ["object graphs are acyclic (an individual does not contain itself
                "the dtype of an EMPTY numpy individual is not content (numpy.array([]) is float64 after unpickling)",
                "GP node objects (Primitive, Terminal, ephemeral instances) are immutable and may be shared"]
 EXPLANATION = ("Pickle PROTOCOLS, the fresh interpreter, and the picklability of undecorated toolbox aliases are "
-               "correspondence/oracle-only (the model has one reduce-tuple semantics and functools.partial as data; "
-               "class re-creation is modelled by Heap.metaCreate, theorems meta_create_* / class_roundtrip).  "
+               "correspondence/oracle-only (the model has one reduce-tuple semantics and functools.partial as data).  "
+               "Class identity across pickling is modelled (Heap.Module / nsRun / dumpP / loadP: classes pickle by value "
+               "and are re-created from the pickled triple whatever the namespace holds; theorems "
+               "pickle_class_independent_of_namespace, loaded_object_class_record, pickle_class_description, "
+               "meta_create_*), so are the slots of GP nodes (Heap.Gp, node_pickle_roundtrip, rename_keeps_node_names).  "
                "partial: the heap model proves the independence argument for the hooks as coded (clone/pickle "
                "equal and disjoint, write independence, chains); that CPython dispatches to these hooks for every "
                "base type and pickle protocol, also in a fresh interpreter, is runtime behaviour checked here.")
@@ -112,16 +128,52 @@ TERMS = ["ARG0", "ARG1", "1", "0.5"]
 NODE_TYPES = (gp.Primitive, gp.Terminal)
 
 
-def build_tree_nodes(tokens):
+_RPSETS = {}
+
+
+def pset_for(rename):
+    """The primitive set the tree of a case is built from.  `rename` = a history of renameArguments calls
+    (each a list of [old, new] pairs); the argument terminals of such a set have name != str(value)."""
+    if not rename:
+        return PSET
+    key = json.dumps(rename)
+    if key not in _RPSETS:
+        ps = gp.PrimitiveSet("C16R", 2)
+        ps.addPrimitive(operator.add, 2)
+        ps.addPrimitive(operator.mul, 2)
+        ps.addPrimitive(operator.neg, 1)
+        ps.addTerminal(1)
+        ps.addTerminal(0.5)
+        for step in rename:
+            ps.renameArguments(**dict((str(a), str(b)) for a, b in step))
+        _RPSETS[key] = ps
+    return _RPSETS[key]
+
+
+def build_tree_nodes(tokens, rename=None):
+    """Tokens ARG0 / ARG1 stand for the first / second ARGUMENT of the set, whatever it is called now."""
+    ps = pset_for(rename)
     out = []
     for t in tokens:
         if isinstance(t, list):           # ["E", ephemeral name, value]
             node = PSET.mapping[t[1]]()
             node.value = t[2]
             out.append(node)
+        elif t in ("ARG0", "ARG1"):
+            out.append(ps.mapping[ps.arguments[int(t[3])]])
         else:
-            out.append(PSET.mapping[t])
+            out.append(ps.mapping[t])
     return out
+
+
+RENAMINGS = [
+    [[["ARG0", "x"]]],
+    [[["ARG0", "x"], ["ARG1", "y"]]],
+    [[["ARG1", "y"]], [["y", "z"]]],
+    [[["ARG0", "ARG1"], ["ARG1", "ARG0"]]],                       # swap (F30)
+    [[["ARG0", "a"]], [["ARG1", "b"]], [["a", "b2"], ["b", "a"]]],
+    [[["ARG0", "x"]], [["x", "ARG0"]]],                           # renamed and renamed back: name == value again
+]
 
 
 def random_tree_tokens(rng, depth):
@@ -165,13 +217,48 @@ def drop_classes(uid):
         delattr(creator, n)
 
 
+TC_OTHER = {"b": "h", "i": "l", "d": "f", "h": "b", "l": "i", "f": "d"}
+
+
+def vary_value(v):
+    """A value of the same kind with other content (class-level constants of a re-created class)."""
+    if isinstance(v, list):
+        tag = v[0]
+        if tag in ("L", "T", "S", "FS"):
+            return v + ["B"]
+        if tag == "D":
+            return v + [["B", 1]]
+        if tag in ("A", "N"):
+            return [tag, v[1], list(v[2]) + [1]]
+        if tag == "=":
+            return ["=", v[1], vary_value(v[2])]
+        return v
+    if isinstance(v, bool):
+        return not v
+    if isinstance(v, (int, float)):
+        return v + 1
+    if isinstance(v, str):
+        return v + "B"
+    if v is None:
+        return "B"
+    return v
+
+
 def build_classes(d, uid, variant=False):
-    """variant=True: the SAME names and bases bound to DIFFERENT classes (weights negated, an extra class-level
-    attribute) — what another script, or a later creator.create in this interpreter, may have put there."""
+    """variant: the SAME names and bases bound to DIFFERENT classes — what another script, or a later
+    creator.create in this interpreter, may have put there.
+      "names" (or True): weights negated and an EXTRA class-level attribute (other keyword names);
+      "values": the same keyword NAMES with other VALUES (weights, typecode, class-level constants)."""
+    if variant is True:
+        variant = "names"
+    wmul = {False: 1, "names": -1, "values": -2}[variant]
+
     def mk(name, pybase, **kw):
         full = cname(uid, name)
-        if variant:
+        if variant == "names":
             kw["c16_variant"] = "B"
+        if variant == "values" and "typecode" in kw:
+            kw["typecode"] = TC_OTHER[kw["typecode"]]
         with warnings.catch_warnings():
             warnings.simplefilter("ignore")
             if hasattr(creator, full) and not variant:
@@ -180,10 +267,13 @@ def build_classes(d, uid, variant=False):
         return getattr(creator, full)
     cl = {}
     fb = base.ConstrainedFitness if d.get("cfit") else base.Fitness
+    fkw = {}
+    for name, t in sorted(d.get("fitinst", {}).items()):     # a fitness class with per-instance containers of its own
+        fkw[name] = {"list": list, "dict": dict, "set": set}[t]
     if d.get("intw"):          # integer weights (products stay Python ints: exact beyond 2**53)
-        cl["Fit"] = mk("Fit", fb, weights=tuple((-1 if variant else 1) * int(w) for w in d["weights"]))
+        cl["Fit"] = mk("Fit", fb, weights=tuple(wmul * int(w) for w in d["weights"]), **fkw)
     else:
-        cl["Fit"] = mk("Fit", fb, weights=tuple((-1.0 if variant else 1.0) * float(w) for w in d["weights"]))
+        cl["Fit"] = mk("Fit", fb, weights=tuple(float(wmul) * float(w) for w in d["weights"]), **fkw)
     kw = {}
     for name, t in sorted(d.get("inst", {}).items()):
         if t in ("list", "dict", "set"):
@@ -192,7 +282,7 @@ def build_classes(d, uid, variant=False):
             kw[name] = cl["Fit"]
         elif t == "fit2":
             if "Fit2" not in cl:
-                cl["Fit2"] = mk("Fit2", base.Fitness, weights=(1.0, -1.0))
+                cl["Fit2"] = mk("Fit2", base.Fitness, weights=(1.0 * wmul, -1.0 * wmul))
             kw[name] = cl["Fit2"]
         elif t == "strategy":
             if "Strat" not in cl:
@@ -200,7 +290,7 @@ def build_classes(d, uid, variant=False):
             kw[name] = cl["Strat"]
         elif t == "nested":
             if "Nested" not in cl:
-                cl["Nested"] = mk("Nested", list, inner=dict, marks=list, level=3)
+                cl["Nested"] = mk("Nested", list, inner=dict, marks=list, level=4 if variant == "values" else 3)
             kw[name] = cl["Nested"]
         elif t == "plainobj":
             kw[name] = Plain
@@ -212,7 +302,7 @@ def build_classes(d, uid, variant=False):
         cl["Aux_" + kind] = mk("Aux" + kind, pyb, fitness=cl["Fit"], tag=list, **extra)
     env = {}
     for name, v in sorted(d.get("cattrs", {}).items()):
-        kw[name] = build_value(v, env, cl)
+        kw[name] = build_value(vary_value(v) if variant == "values" else v, env, cl)
     b = d["base"]
     if b == "list":
         pybase = list
@@ -308,7 +398,7 @@ def content_of(d, cl=None, env=None):
     if b in ("list", "set") and any(isinstance(v, list) for v in c):     # non-atomic top-level content
         return [build_value(v, {} if env is None else env, cl) for v in c]
     if b == "tree":
-        return build_tree_nodes(c)
+        return build_tree_nodes(c, d.get("rename"))
     if b == "dict":
         return None
     if b.startswith("ndarray"):
@@ -353,6 +443,13 @@ def build_instance(d, cl, env=None):
             f.values = tuple(vals)
         if d.get("cfit") and name == "fitness" and d.get("cv") is not None:
             f.constraint_violation = list(d["cv"])      # also on a VALID fitness: the normal state after evaluation
+    for name, v in sorted(d.get("fitfill", {}).items()):
+        tgt = getattr(x.fitness, name)
+        val = build_value(v, env, cl)
+        if isinstance(tgt, list):
+            tgt.extend(val)
+        else:
+            tgt.update(val)
     for name, v in sorted(d.get("extra", {}).items()):
         setattr(x, name, build_value(v, env, cl))
     for name, v in sorted(d.get("fitextra", {}).items()):
@@ -402,6 +499,9 @@ def nd_header(a):
     return ["nd", dt if a.size else "empty", list(a.shape)]
 
 
+_NOFX = [False]      # leave attributes hung on a Fitness (other than its declared state) out of the abstraction
+
+
 def canon(o, depth=0):
     """Pure-value abstraction: JSON-able, identity-free, attribute order free."""
     if depth > 40:
@@ -417,7 +517,7 @@ def canon(o, depth=0):
         if isinstance(o, base.ConstrainedFitness):
             attrs = [kv for kv in attrs if kv[0] != "constraint_violation"]
             cv = canon(getattr(o, "constraint_violation", "<missing>"), depth + 1)
-        attrs = [kv for kv in attrs if kv[0] != "wvalues"]
+        attrs = [] if _NOFX[0] else [kv for kv in attrs if kv[0] != "wvalues"]
         return ["fit", class_sig(t), [repr(w) for w in o.wvalues], [repr(v) for v in o.values], bool(o.valid), cv,
                 attrs]
     if isinstance(o, NODE_TYPES):
@@ -453,17 +553,24 @@ def fresh_of(t):
     return t()
 
 
+_SIG = {}      # class object -> signature; emptied at the start of every evaluation (a class is not changed by a case)
+
+
 def class_sig(t):
     """What makes two classes 'equivalent': name, names of the bases chain, class-level attributes, and the
     per-instance attributes a new instance gets (observed on a new instance, not read from reduce_args)."""
     if not is_created(t):
         return [t.__name__]
+    hit = _SIG.get(t)
+    if hit is not None:
+        return hit
     cls_attrs = sorted([k, canon(v)] for k, v in vars(t).items() if k not in _INFRA)
     try:
         inst = sorted([k, type(v).__name__] for k, v in vars(fresh_of(t)).items())
     except Exception as e:  # noqa
         inst = ["cannot instantiate: %s" % type(e).__name__]
-    return [t.__name__, [b.__name__ for b in t.__mro__[1:]], cls_attrs, inst]
+    _SIG[t] = [t.__name__, [b.__name__ for b in t.__mro__[1:]], cls_attrs, inst]
+    return _SIG[t]
 
 
 def children(o):
@@ -586,8 +693,20 @@ def mutate_all(o):
 # Python object graph -> heap model text, and dumps of copies in the model's canonical form
 # ----------------------------------------------------------------------------------------------------
 
+_HID = {}
+
+
 def hid(key):
-    return int.from_bytes(hashlib.sha1(json.dumps(key, sort_keys=True, default=repr).encode()).digest()[:5], "big")
+    try:
+        k = (tuple(key), tuple(map(type, key)))       # (1, True and 1.0 are equal as dict keys)
+        return _HID[k]
+    except KeyError:
+        _HID[k] = h = int.from_bytes(hashlib.sha1(json.dumps(key, sort_keys=True, default=repr).encode()).digest()[:5], "big")
+        if len(_HID) > 200000:
+            _HID.clear()
+        return h
+    except TypeError:       # a nested (unhashable) key
+        return int.from_bytes(hashlib.sha1(json.dumps(key, sort_keys=True, default=repr).encode()).digest()[:5], "big")
 
 
 BUILTIN_CLASSES = ["list", "dict", "set", "tuple", "array", "ndarray", "object", "Primitive", "Terminal", "Ephemeral"]
@@ -757,7 +876,7 @@ class Modeler(object):
 
         def sv(x):
             return "a%d" % x[1] if x[0] == "a" else self.tree_dump(x[1], depth + 1)
-        return "<%d/%d/%s/%s>" % (c, 1 if m else 0, ",".join(sv(x) for x in items) or "-",
+        return "<%s/%d/%s/%s>" % (c, 1 if m else 0, ",".join(sv(x) for x in items) or "-",
                                   ",".join("%d=%s" % (k, sv(x)) for k, x in attrs) or "-")
 
 
@@ -797,6 +916,10 @@ def tag_of(d):
         cfg.append("extra")
     if d.get("del") or d.get("fitextra"):
         cfg.append("off-premise")
+    if d.get("fitinst"):
+        cfg.append("fitness-containers")
+    if d.get("rename"):
+        cfg.append("renamed-arguments")
     if d.get("hard"):
         cfg.append("hardfit:" + d["hard"])
     if d.get("aux") or "SELF" in json.dumps(d.get("extra", {})):
@@ -841,12 +964,26 @@ def check_copy(kind, x, c, canon0, sig0, require_same_class):
 def eval_obj(d):
     uid = next_uid()
     premise = not (d.get("del") or d.get("fitextra"))
+    _SIG.clear()
+    # a fitness class with containers of its own: what a copy does with THEM is outside the statement's equalities
+    # (DESIGN section 6: "equal extra attributes" = attributes of the individual); sharing them is not.
+    _NOFX[0] = bool(d.get("fitinst"))
     try:
         with warnings.catch_warnings():
             warnings.simplefilter("ignore")
             return _eval_obj(d, uid, premise)
     finally:
+        _NOFX[0] = False
         drop_classes(uid)
+
+
+def full_canon(o):
+    keep = _NOFX[0]
+    _NOFX[0] = False
+    try:
+        return canon(o)
+    finally:
+        _NOFX[0] = keep
 
 
 def _eval_obj(d, uid, premise):
@@ -861,7 +998,7 @@ def _eval_obj(d, uid, premise):
             orc = msg
 
     # ---- 1. two instances: freshly constructed per-instance attributes
-    dd = dict(d, fill={}, fits={}, extra={}, fitextra={}, **{"del": []})
+    dd = dict(d, fill={}, fits={}, extra={}, fitextra={}, fitfill={}, **{"del": []})
     x1, x2 = build_instance(dd, cl), build_instance(dd, cl)
     dct = Ind.reduce_args[2]
     for name, v in sorted(dct.items()):
@@ -872,7 +1009,7 @@ def _eval_obj(d, uid, premise):
                 fail("create: per-instance attribute %r is the same object in two instances" % name)
             elif type(vars(x1)[name]) is not v:
                 fail("create: attribute %r is a %r, not a %r" % (name, type(vars(x1)[name]), v))
-            elif canon(vars(x1)[name]) != canon(v()):
+            elif full_canon(vars(x1)[name]) != full_canon(v()):
                 fail("create: attribute %r is not a freshly constructed %r" % (name, v))
         else:
             if name in vars(x1) or getattr(x1, name) is not v or getattr(x2, name) is not v:
@@ -942,39 +1079,47 @@ def _eval_obj(d, uid, premise):
             lines.append("C16 pickle %s %s %s same" % (m.ct_text(), m.heap_text(), root))
             expect.append(m.tree_dump(u))
 
-    # ---- 2b. the same pickles loaded while the names are bound to DIFFERENT classes (re-created in between):
-    #          the unpickled object must still be of a class equivalent to the ORIGINAL one
-    if premise and d.get("clash", True):
-        build_classes(d, uid, variant=True)
+    # ---- 2b. the same pickles loaded while the names are bound to DIFFERENT classes (re-created in between, with
+    #          other keyword names, or with the SAME keyword names and other values: weights, typecode, class-level
+    #          constants): the unpickled object must still be of a class equivalent to the ORIGINAL one
+    mode = d.get("clash", True)
+    if premise and mode:
+        mode = "names" if mode is True else mode
+        build_classes(d, uid, variant=mode)
+        what = "names re-created with %s before loading" % ("other attributes" if mode == "names" else
+                                                            "the same attribute names and other values")
         for p, blob in blobs:
             try:
                 u = pickle.loads(blob)
             except Exception as e:  # noqa
-                fail("pickle protocol %d, names re-created with other attributes before loading: %s: %s"
-                     % (p, type(e).__name__, e))
+                fail("pickle protocol %d, %s: %s: %s" % (p, what, type(e).__name__, e))
                 continue
-            r = check_copy("pickle protocol %d, names re-created with other attributes before loading" % p,
-                           x, u, canon0, sig0, False)
+            r = check_copy("pickle protocol %d, %s" % (p, what), x, u, canon0, sig0, False)
             if r:
                 fail(r)
 
-    # ---- 3. mutation test, both directions
+    # ---- 3. mutation test, both directions (on the full abstraction, fitness containers included)
     if premise:
+        full0 = full_canon(x)
         second = [("clone", tb.clone(x))]
         for p in d.get("protos", PROTOCOLS)[:2] + d.get("protos", PROTOCOLS)[-1:]:
             try:
                 second.append(("pickle%d" % p, pickle.loads(pickle.dumps(x, p))))
             except Exception:  # noqa  (already reported above)
                 pass
-        for kind, c in [("clone#%d" % (i + 1), c) for i, c in enumerate(chain)] + [("pickle%d" % p, u) for p, u in pick]:
-            mutate_all(c)
-            if canon(x) != canon0:
-                fail("changing the %s changed the original: %s" % (kind, first_diff(canon0, canon(x))))
-                break
-        mutate_all(x)
         for kind, c in second:
             if canon(c) != canon0:
-                fail("changing the original changed its %s: %s" % (kind, first_diff(canon0, canon(c))))
+                fail("%s of the original differs from it: %s" % (kind, first_diff(canon0, canon(c))))
+        second = [(kind, c, full_canon(c)) for kind, c in second]
+        for kind, c in [("clone#%d" % (i + 1), c) for i, c in enumerate(chain)] + [("pickle%d" % p, u) for p, u in pick]:
+            mutate_all(c)
+            if full_canon(x) != full0:
+                fail("changing the %s changed the original: %s" % (kind, first_diff(full0, full_canon(x))))
+                break
+        mutate_all(x)
+        for kind, c, before in second:
+            if full_canon(c) != before:
+                fail("changing the original changed its %s: %s" % (kind, first_diff(before, full_canon(c))))
                 break
     nontrivial = bool(d["content"]) or bool(d.get("inst")) or bool(d.get("extra"))
     return Case(d, lines, expect, orc, tag=tag_of(d), nontrivial=nontrivial)
@@ -984,6 +1129,7 @@ def _eval_obj(d, uid, premise):
 
 def eval_fresh(d):
     uids, entries, keep = [], [], []
+    _SIG.clear()
     try:
         with warnings.catch_warnings():
             warnings.simplefilter("ignore")
@@ -1027,7 +1173,11 @@ def eval_fresh(d):
                         orc = "fresh interpreter, toolbox alias, protocol %s: %r instead of %r (case %s)" % (
                             pr, got, want, json.dumps(sub))
                 continue
-            canon0, sig0, csig = canon(x), alias_sig(x), class_sig(type(x))
+            _NOFX[0] = bool(sub.get("fitinst"))
+            try:
+                canon0, sig0, csig = canon(x), alias_sig(x), class_sig(type(x))
+            finally:
+                _NOFX[0] = False
             for pr in sorted(ans, key=int):
                 a = ans[pr]
                 premise = not (sub.get("del") or sub.get("fitextra"))
@@ -1047,8 +1197,8 @@ def eval_fresh(d):
                 if model_ready(sub):
                     lines.append("C16 pickle %s %s %s empty" % (m.ct_text(), m.heap_text(), root))
                     expect.append(a.get("tree", "raised"))
-        return Case(d, lines, expect, orc, tag="fresh/%s/n=%d" % ("clash" if d.get("recreate", True) == "clash" else
-                                                                  "recreate" if d.get("recreate", True) else "bare",
+        rc = d.get("recreate", True)
+        return Case(d, lines, expect, orc, tag="fresh/%s/n=%d" % (rc if isinstance(rc, str) else "recreate" if rc else "bare",
                                                                   len(d["cases"])), nontrivial=True)
     finally:
         for u in uids:
@@ -1072,9 +1222,12 @@ def child_main():
                         ans[pr] = "error %s: %s" % (type(ex).__name__, ex)
                 out.append(ans)
                 continue
-            if req["recreate"] == "clash":
-                build_classes(e["sub"], e["uid"])                      # first definition, then
-                build_classes(e["sub"], e["uid"], variant=True)        # this process's OWN, different classes
+            _SIG.clear()
+            _NOFX[0] = bool(e["sub"].get("fitinst"))
+            if req["recreate"] in ("clash", "clashv"):
+                build_classes(e["sub"], e["uid"])                      # first definition, then this process's OWN,
+                build_classes(e["sub"], e["uid"],                      # different classes (other keyword names / the
+                              variant="names" if req["recreate"] == "clash" else "values")   # same names, other values)
             elif req["recreate"]:
                 build_classes(e["sub"], e["uid"])
             for pr, hx in e["pickles"].items():
@@ -1090,6 +1243,361 @@ def child_main():
                     ans[pr] = {"error": "unpickling raised %s: %s" % (type(ex).__name__, ex)}
             out.append(ans)
     sys.stdout.write(json.dumps(out) + "\n")
+
+
+# ---- the creator namespace between dumps and loads (Heap.dumpP / loadP / nsRun) ---------------------
+
+def nid(name):
+    return 0 if name == "constraint_violation" else 1 + hid(["name", name])
+
+
+def builtin_label(t):
+    if issubclass(t, gp.Primitive):
+        return "Primitive"
+    if issubclass(t, gp.Terminal):
+        return "Terminal" if t is gp.Terminal else "Ephemeral"
+    for n, ty in (("list", list), ("dict", dict), ("set", set), ("tuple", tuple), ("array", array.array),
+                  ("ndarray", numpy.ndarray)):
+        if t is ty:
+            return n
+    return "object"
+
+
+def short_name(t):
+    """C16_<pid>_<n>_<Name> -> Name"""
+    return t.__name__.split("_", 3)[3] if t.__name__.startswith("C16_") else t.__name__
+
+
+def class_value_atom(v):
+    return hid(["cv", json.dumps(canon(v), sort_keys=True, default=repr)])
+
+
+def desc_text(t):
+    """Identity-free description of a class, as Driver/C16.lean `classText` prints Heap.describe: name, base kind,
+    per-instance attribute classes (described the same way), class-level attributes — read from the class the
+    object actually has (its keyword dictionary for the names, getattr for the values)."""
+    if not is_created(t):
+        lab = builtin_label(t)
+        return "[%d:%s:-:-]" % (nid("builtin:" + lab), "node" if lab in ("Primitive", "Terminal", "Ephemeral") else "plain")
+    dct = t.reduce_args[2]
+    inst = sorted((nid(k), desc_text(v)) for k, v in dct.items() if isinstance(v, type))
+    cls = sorted((nid(k), class_value_atom(getattr(t, k))) for k, v in dct.items() if not isinstance(v, type))
+    return "[%d:%s:%s:%s]" % (nid("cls:" + short_name(t)), kind_of(t), "+".join("%d=%s" % p for p in inst) or "-",
+                              ",".join("%d=a%d" % p for p in cls) or "-")
+
+
+class HistModeler(Modeler):
+    """Dumps with the class DESCRIPTION in place of a class id (no identities of the original graph)."""
+
+    def cls_id(self, t):
+        return desc_text(t)
+
+
+HIST_TC = {"b": ("b", "h", "b", "b"), "i": ("i", "l", "i", "i"), "d": ("d", "f", "d", "d")}
+HIST_PYBASE = {"Fit": None, "Strat": array.array, "Other": list}
+
+
+def hist_create(d, uid, name, var):
+    """creator.create of one class of the history, variant `var`: 0..2 = the same keyword names with other values
+    (weights, typecode, class-level constants), 3 = an additional keyword.  None when a class it needs is unbound."""
+    full = cname(uid, name)
+    kw = {}
+    if var == 3:
+        kw["tag"] = "B"
+    if name == "Fit":
+        pybase = base.ConstrainedFitness if d.get("cfit") else base.Fitness
+        kw["weights"] = tuple(float(w) * (1.0, -2.0, 3.0, -1.0)[var] for w in d["weights"])
+    elif name == "Strat":
+        pybase = array.array
+        kw["typecode"] = ("d", "f", "d", "d")[var]
+        kw["scale"] = (1, 2, 3, 1)[var]
+    elif name == "Other":
+        pybase = list
+        kw["marker"] = (0, 1, 2, 0)[var]
+    else:
+        b = d["base"]
+        pybase = {"list": list, "set": set, "dict": dict, "tree": gp.PrimitiveTree}.get(b)
+        if b.startswith("array:"):
+            pybase = array.array
+            kw["typecode"] = HIST_TC[b.split(":")[1]][var]
+        elif b.startswith("ndarray"):
+            pybase = numpy.ndarray
+        for attr, cls in (("fitness", "Fit"),) + ((("strategy", "Strat"),) if d.get("strat") else ()):
+            if not hasattr(creator, cname(uid, cls)):
+                return None
+            kw[attr] = getattr(creator, cname(uid, cls))
+        kw["log"] = list
+        kw["label"] = "exp%d" % var
+    creator.create(full, pybase, **kw)        # over a bound name: RuntimeWarning, the name is rebound
+    return getattr(creator, full)
+
+
+def hist_create_token(t, uid):
+    dct = t.reduce_args[2]
+    inst, cls = [], []
+    for k, v in sorted(dct.items(), key=lambda kv: nid(kv[0])):
+        if isinstance(v, type):
+            inst.append("%d=%s" % (nid(k), ("@%d" % nid("cls:" + short_name(v))) if is_created(v)
+                                   else "#%d" % BUILTIN_CLASSES.index(builtin_label(v))))
+        else:
+            cls.append("%d=%d" % (nid(k), class_value_atom(v)))
+    return "c/%d/%s/%s/%s" % (nid("cls:" + short_name(t)), kind_of(t), ",".join(inst) or "-", ",".join(cls) or "-")
+
+
+def eval_hist(d):
+    uid = next_uid()
+    _SIG.clear()
+    try:
+        with warnings.catch_warnings():
+            warnings.simplefilter("ignore")
+            return _eval_hist(d, uid)
+    finally:
+        drop_classes(uid)
+
+
+def _eval_hist(d, uid):
+    protos = d.get("protos", PROTOCOLS)
+    hm = HistModeler()
+    toks = []                      # the model's ops (the same for every protocol)
+    slots, dumps = {}, []          # slot -> object; dumps: (object, canon, alias signature, {protocol: bytes})
+    loads = dict((p, []) for p in protos)      # protocol -> expected text of every load
+    orc = None
+    tmp = [1000]
+    recreated = False
+
+    def fail(msg):
+        nonlocal orc
+        if orc is None:
+            orc = msg
+
+    def atoms(parts_items):
+        out = []
+        for x in parts_items:
+            if x[0] == "a":
+                out.append("a%d" % x[1])
+            else:                  # a GP node object: an instance of a by-reference class, built first
+                node = x[1]
+                lab = builtin_label(type(node))
+                _, _, its, _ = hm.parts(node)
+                tmp[0] += 1
+                toks.append("o/%d/#%d/%s" % (tmp[0], BUILTIN_CLASSES.index(lab), ",".join("a%d" % i[1] for i in its) or "-"))
+                out.append("s%d" % tmp[0])
+        return ",".join(out) or "-"
+
+    for step in d["steps"]:
+        op = step[0]
+        if op == "create":
+            t = hist_create(d, uid, step[1], step[2])
+            if t is not None:
+                toks.append(hist_create_token(t, uid))
+                recreated = recreated or bool(dumps)
+        elif op == "delete":
+            full = cname(uid, step[1])
+            if hasattr(creator, full):
+                delattr(creator, full)
+                toks.append("d/%d" % nid("cls:" + step[1]))
+        elif op == "new":
+            _, slot, content, fitvals, logfill, note = step
+            Ind = getattr(creator, cname(uid, "Ind"), None)
+            if Ind is None:
+                continue
+            dd = {"base": d["base"], "content": content, "rename": d.get("rename")}
+            if d["base"] == "dict":
+                x = Ind()
+                for k, v in content:
+                    x[k] = v
+            else:
+                x = Ind(content_of(dd))
+            toks.append("n/%d/%d/%s" % (slot, nid("cls:Ind"), atoms(hm.parts(x)[2])))
+            if fitvals is not None:
+                x.fitness.values = tuple(fitvals)
+                toks.append("s/%d/%d/%s" % (slot, nid("fitness"), atoms(hm.parts(x.fitness)[2])))
+            if logfill:
+                x.log.extend(logfill)
+                toks.append("s/%d/%d/%s" % (slot, nid("log"), atoms(hm.parts(x.log)[2])))
+            if hasattr(x, "strategy"):
+                x.strategy.extend([0.5, 1.5])
+                toks.append("s/%d/%d/%s" % (slot, nid("strategy"), atoms(hm.parts(x.strategy)[2])))
+            if note is not None:
+                x.note = note
+                toks.append("v/%d/%d/a%d" % (slot, nid("note"), hm.atom(atom_key(note))[1]))
+            slots[slot] = x
+        elif op == "dump":
+            x = slots.get(step[1])
+            if x is None:
+                continue
+            blobs = {}
+            for p in protos:
+                try:
+                    blobs[p] = pickle.dumps(x, p)
+                except Exception as e:  # noqa
+                    fail("history: pickle protocol %d: dumps raised %s: %s" % (p, type(e).__name__, e))
+            dumps.append((x, canon(x), alias_sig(x), blobs))
+            toks.append("p/%d" % step[1])
+        elif op == "load":
+            if step[1] >= len(dumps):
+                continue
+            x, canon0, sig0, blobs = dumps[step[1]]
+            toks.append("l/%d" % step[1])
+            for p in protos:
+                what = "history %s, protocol %d" % (json.dumps([s[:3] for s in d["steps"]]), p)
+                try:
+                    u = pickle.loads(blobs[p])
+                except Exception as e:  # noqa
+                    loads[p].append("raised %s" % type(e).__name__)
+                    fail("%s: loads raised %s: %s" % (what, type(e).__name__, e))
+                    continue
+                r = check_copy(what, x, u, canon0, sig0, False)
+                if r:
+                    fail(r)
+                loads[p].append(HistModeler().tree_dump(u))
+    ns = []
+    for name in ("Fit", "Strat", "Other", "Ind"):
+        t = getattr(creator, cname(uid, name), None)
+        if t is not None:
+            ns.append((nid("cls:" + name), desc_text(t)))
+    nstext = "NS:" + (",".join("%d=%s" % p for p in sorted(ns)) or "-")
+    head = "C16 hist " + ";".join("%d/%s" % (nid("builtin:" + n), "node" if n in ("Primitive", "Terminal", "Ephemeral")
+                                              else "plain") for n in BUILTIN_CLASSES)
+    line = head + (" " + " ".join(toks) if toks else "")
+    lines = [line for _ in protos]
+    expect = [";".join(loads[p] + [nstext]) for p in protos]
+    return Case(d, lines, expect, orc, tag="hist/%s/%s" % (d["base"], "recreated" if recreated else "plain"),
+                nontrivial=True)
+
+
+def hist_case(b, rng):
+    nobj = rng.randint(1, 3)
+    d = {"k": "hist", "base": b, "weights": [rng.choice([1.0, -1.0, 2.0, -0.5]) for _ in range(nobj)],
+         "cfit": rng.random() < 0.2, "strat": rng.random() < 0.4}
+    if b == "tree" and rng.random() < 0.5:
+        d["rename"] = rng.choice(RENAMINGS)
+
+    def new(slot):
+        size = rng.choice([0, 1, 3])
+        content = ([[rng.choice([i, "k%d" % i]), rng.choice([1, 2.5, "s", None])] for i in range(size)] if b == "dict"
+                   else content_for(b, size, rng))      # atoms only: the history is about the classes
+        return ["new", slot, content, rand_fit(nobj, rng) if rng.random() < 0.7 else None,
+                [rng.randint(0, 9) for _ in range(rng.randint(0, 2))], rng.choice([None, 3, "n"])]
+    names = ["Fit", "Other", "Ind"] + (["Strat"] if d["strat"] else [])
+    steps = [["create", "Fit", 0]] + ([["create", "Strat", 0]] if d["strat"] else []) + \
+            [["create", "Other", rng.randint(0, 2)], ["create", "Ind", 0], new(0), ["dump", 0]]
+    ndump = 1
+    for _ in range(rng.randint(2, 7)):
+        r = rng.random()
+        if r < 0.4:
+            steps.append(["create", rng.choice(names), rng.choice([1, 2, 1, 2, 3, 0])])
+        elif r < 0.55:
+            steps.append(["delete", rng.choice(names)])
+        elif r < 0.7:
+            slot = rng.randint(0, 2)
+            steps += [new(slot), ["dump", slot]]
+            ndump += 1
+        else:
+            steps.append(["load", rng.randrange(ndump)])
+    # always: the dumped object's class names re-created with the SAME keyword names and other values, then loaded
+    steps += [["create", "Fit", rng.choice([1, 2])], ["create", "Ind", rng.choice([1, 2])], ["load", 0]]
+    if rng.random() < 0.5:
+        steps += [["delete", rng.choice(names)], ["load", rng.randrange(ndump)]]
+    d["steps"] = steps
+    return d
+
+
+# ---- GP node objects under renameArguments (Heap.Gp) -----------------------------------------------
+
+def gatom(x):
+    return hid(["g", repr(x)])
+
+
+def node_text(n):
+    def sl(s):
+        return str(gatom(getattr(n, s))) if hasattr(n, s) else "-"
+    if isinstance(n, gp.Primitive):
+        return "P/" + "/".join(sl(s) for s in ("name", "arity", "args", "ret", "seq"))
+    return "T/" + "/".join(sl(s) for s in ("name", "value", "ret", "conv_fct"))
+
+
+def eval_gp(d):
+    uid = next_uid()
+    _SIG.clear()
+    try:
+        with warnings.catch_warnings():
+            warnings.simplefilter("ignore")
+            ps = gp.PrimitiveSet("C16G", 2)
+            ps.addPrimitive(operator.add, 2)
+            ps.addPrimitive(operator.mul, 2)
+            ps.addPrimitive(operator.neg, 1)
+            ps.addTerminal(1)
+            ps.addTerminal(0.5)
+            store = list(ps.mapping.values())                   # node objects by identity
+            idx = dict((id(n), i) for i, n in enumerate(store))
+            line = "C16 gp %s %s %s %s " % (
+                ";".join(node_text(n) for n in store), ",".join(str(gatom(a)) for a in ps.arguments),
+                ",".join("%d=%d" % (gatom(k), idx[id(n)]) for k, n in ps.mapping.items()),
+                ";".join(",".join("%d=%d" % (gatom(a), gatom(b)) for a, b in step) or "-" for step in d["rename"]) or "-")
+            # trees hold the node OBJECTS: one built before the renamings sees them too
+            early = d.get("early", False)
+            pick = lambda: [ps.mapping[ps.arguments[int(t[3])]] if t in ("ARG0", "ARG1") else ps.mapping[t]  # noqa
+                            for t in d["tree"]]
+            nodes = pick() if early else None
+            failed = False
+            try:
+                for step in d["rename"]:
+                    ps.renameArguments(**dict((str(a), str(b)) for a, b in step))
+            except KeyError:
+                failed = True          # two arguments of the same name renamed again: mapping.pop raises
+            lines, expect, orc = [], [], None
+            if failed:
+                return Case(d, [line + "-"], ["fail"], None, tag="gp/keyerror", nontrivial=True)
+            if nodes is None:
+                nodes = pick()
+            line += ",".join(str(idx[id(n)]) for n in nodes) or "-"
+            cl = build_classes({"base": "tree", "weights": [1.0], "inst": {"fitness": "fit"}}, uid)
+            x = cl["Ind"](nodes)
+            canon0, sig0 = canon(x), alias_sig(x)
+            head = "%s|%s|" % (",".join(str(gatom(a)) for a in ps.arguments) or "-",
+                               ",".join(str(gatom(k)) for k in ps.mapping) or "-")
+            for p in d.get("protos", PROTOCOLS):
+                try:
+                    u = pickle.loads(pickle.dumps(x, p))
+                except Exception as e:  # noqa
+                    orc = orc or "renamed arguments %r, protocol %d: %s: %s" % (d["rename"], p, type(e).__name__, e)
+                    lines.append(line)
+                    expect.append("raised %s" % type(e).__name__)
+                    continue
+                r = check_copy("tree over renamed arguments %r, pickle protocol %d" % (d["rename"], p), x, u, canon0,
+                               sig0, False)
+                for i, (a, b) in enumerate(zip(x, u)):      # every slot of every node, name included
+                    for s in type(a).__slots__:
+                        if hasattr(a, s) != hasattr(b, s) or (hasattr(a, s) and getattr(a, s) != getattr(b, s)):
+                            r = r or "tree over renamed arguments %r, pickle protocol %d: node %d slot %r is %r, was %r" % (
+                                d["rename"], p, i, s, getattr(b, s, "<unset>"), getattr(a, s, "<unset>"))
+                orc = orc or r
+                lines.append(line)
+                expect.append(head + (";".join(node_text(n) for n in u) or "-"))
+            return Case(d, lines, expect, orc, tag="gp/renamed=%d/early=%s" % (len(d["rename"]), early), nontrivial=True)
+    finally:
+        drop_classes(uid)
+
+
+def gp_case(rng):
+    pool = ["x", "y", "z", "ARG0", "ARG1", "a"]
+    hist, args = [], ["ARG0", "ARG1"]
+    if rng.random() < 0.5:
+        hist = [[list(p) for p in step] for step in rng.choice(RENAMINGS)]
+    else:
+        for _ in range(rng.randint(0, 3)):
+            step = []
+            for i, a in enumerate(args):
+                if rng.random() < 0.6 and a not in [s[0] for s in step]:
+                    new = rng.choice(pool)
+                    step.append([a, new])
+            for a, new in step:
+                args = [new if x == a else x for x in args]
+            hist.append(step)
+    tree = rng.choice([["add", "ARG0", "ARG1"], ["mul", "ARG1", "1"], ["ARG0"], ["neg", "ARG1"],
+                       ["add", "0.5", "ARG0"], ["add", "mul", "ARG0", "ARG1", "neg", "ARG0"], []])
+    return {"k": "gp", "rename": hist, "tree": tree, "early": rng.random() < 0.3}
 
 
 # ---- toolbox ---------------------------------------------------------------------------------------
@@ -1226,6 +1734,10 @@ def evaluate(d):
         return eval_fresh(d)
     if d["k"] == "tb":
         return eval_tb(d)
+    if d["k"] == "hist":
+        return eval_hist(d)
+    if d["k"] == "gp":
+        return eval_gp(d)
     raise ValueError(d["k"])
 
 
@@ -1408,9 +1920,26 @@ def random_config(rng):
     return dict((k, v) for k, v in cfg.items() if v)
 
 
+FIT_CONTAINERS = [
+    ({"notes": "list"}, {"notes": ["L", 4]}),
+    ({"notes": "list", "meta": "dict"}, {"notes": ["L", 1, ["L", 2]], "meta": ["D", ["gen", ["L", 7]]]}),
+    ({"seen": "set", "notes": "list"}, {"seen": ["S", 1, 2]}),
+    ({"meta": "dict"}, {}),
+]
+
+
 def obj_case(b, size, cfg, nobj, valid, rng, chain=1, cfit=False, cv=None, hard=None):
     d = with_fit(cfg, nobj, valid, rng, cfit, cv, hard)
-    d.update({"k": "obj", "base": b, "content": content_for(b, size, rng), "chain": chain})
+    d.update({"k": "obj", "base": b, "content": content_for(b, size, rng), "chain": chain,
+              "clash": rng.choice(["values", "values", "names"])})
+    return d
+
+
+def with_fit_containers(d, rng):
+    """The fitness class itself gets per-instance containers (creator.create("Fit", base.Fitness, weights=..., notes=list))."""
+    if "fitness" in d.get("inst", {}) and not d.get("fitextra"):
+        fi, ff = rng.choice(FIT_CONTAINERS)
+        d["fitinst"], d["fitfill"] = dict(fi), dict(ff)
     return d
 
 
@@ -1457,6 +1986,19 @@ def structured(rng, thorough):
         for cv in (None, [True, False], []):
             out.append(obj_case(b, 2, CONFIGS[1], 2, False, rng, cfit=True, cv=cv))
         out.append(obj_case(b, 2, CONFIGS[2], 1, True, rng, cfit=True))
+    # trees over a primitive set whose arguments were renamed (every history in RENAMINGS): name != str(value)
+    for ren in RENAMINGS:
+        for cfg in (CONFIGS[0], CONFIGS[1], rng.choice(CONFIGS[2:])):
+            d = obj_case("tree", 0, cfg, rng.randint(1, 3), rng.random() < 0.5, rng, chain=rng.choice([1, 2]))
+            d["content"] = rng.choice([["add", "ARG0", "ARG1"], ["mul", "ARG1", ["E", "c16_eph_int", 2]],
+                                       ["ARG0"], ["neg", "ARG1"], ["add", "1", "ARG0"]])
+            d["rename"] = ren
+            out.append(d)
+    # a fitness class with containers of its own: clones / pickles must not share them with the original
+    for b in BASES:
+        for cfg in (CONFIGS[1], rng.choice(CONFIGS[2:6])):
+            out.append(with_fit_containers(obj_case(b, rng.choice([1, 3]), cfg, rng.randint(1, 3), rng.random() < 0.6,
+                                                    rng, chain=rng.choice([1, 2, 3])), rng))
     # 2-D numpy individuals (oracle only)
     for kind in ("int", "float"):
         d = obj_case("ndarray:" + kind, 0, CONFIGS[2], 2, True, rng)
@@ -1492,14 +2034,23 @@ def tb_case(rng):
 
 def generate(tier, rng, mult):
     thorough = tier == "thorough"
+    # 1. class identity across pickling: histories of create / re-create / delete / dump / load over every base
+    #    type and every protocol, against Heap.dumpP / loadP / nsRun (theorem pickle_class_independent_of_namespace)
+    for rep in range(8 if thorough else 3):
+        for b in BASES:
+            yield hist_case(b, rng)
+    # 2. GP node objects under renameArguments histories (theorem node_pickle_roundtrip)
+    for _ in range(300 if thorough else 40):
+        yield gp_case(rng)
     st = structured(rng, thorough)
     rng.shuffle(st)
-    # a first fresh-interpreter batch early (so that it is always reached within the budget)
-    nb = (60 if thorough else 40)
-    for i in range(0, min(len(st), nb * (6 if thorough else 3)), nb):
-        batch = [dict(s) for s in st[i:i + nb] if model_ready(s) or True]
+    # 3. fresh-interpreter batches early (so that they are always reached within the budget): the child re-runs the
+    #    creates / defines its OWN different classes under the same names (other names; same names, other values) / nothing
+    nb = (60 if thorough else 30)
+    for i in range(0, min(len(st), nb * (8 if thorough else 4)), nb):
+        batch = [dict(s) for s in st[i:i + nb]]
         batch += [tb_case(rng) for _ in range(5)]
-        yield {"k": "fresh", "recreate": [True, "clash", False][(i // nb) % 3], "cases": batch,
+        yield {"k": "fresh", "recreate": [True, "clashv", "clash", False][(i // nb) % 4], "cases": batch,
                "hashseed": rng.randint(0, 1000)}
     for _ in range(200 if thorough else 60):
         yield tb_case(rng)
@@ -1515,7 +2066,7 @@ def generate(tier, rng, mult):
                        "fit": rand_fit(len(w), rng)}
     for s in st:
         yield s
-    nrand = (12000 if thorough else 2500) * mult
+    nrand = (12000 if thorough else 2200) * mult
     pend = []
     for i in range(nrand):
         b = rng.choice(BASES)
@@ -1526,6 +2077,10 @@ def generate(tier, rng, mult):
                      chain=rng.choice([1, 1, 2, 3, 4]), cfit=cfit,
                      hard=("rand" if (valid and not cfit and rng.random() < 0.3) else None),
                      cv=rng.choice([None, [True], [False, True]]) if cfit else None)
+        if b == "tree" and rng.random() < 0.5:
+            d["rename"] = rng.choice(RENAMINGS)
+        if not cfit and rng.random() < 0.12:
+            with_fit_containers(d, rng)
         if b in ("list", "set") and rng.random() < 0.35:
             d["content"] = nested_content(b, rng)
             d["aux"] = sorted(set(d.get("aux", []) + ["tree", "list"]))
@@ -1535,11 +2090,14 @@ def generate(tier, rng, mult):
             d["extra"] = dict(d.get("extra", {}), **nc["extra"])
         yield d
         pend.append(d)
-        if len(pend) == 50 and (thorough or i < 600):
-            yield {"k": "fresh", "recreate": rng.choice([True, False, "clash", "clash"]), "cases": pend,
+        if len(pend) == 50 and (thorough or i < 300):
+            yield {"k": "fresh", "recreate": rng.choice([True, False, "clash", "clashv"]), "cases": pend,
                    "hashseed": rng.randint(0, 1000)}
         if len(pend) >= 50:
             pend = []
+        if i % 25 == 24:            # histories and renamed-argument trees keep coming with the random objects
+            yield hist_case(rng.choice(BASES), rng)
+            yield gp_case(rng)
 
 
 def shrink(d):
@@ -1559,6 +2117,25 @@ def shrink(d):
         if d["content"]:
             yield dict(d, content=d["content"][:-1])
         return
+    if d["k"] == "hist":
+        if len(d.get("protos", PROTOCOLS)) > 1:
+            for p in d.get("protos", PROTOCOLS):
+                yield dict(d, protos=[p])
+        for i in range(len(d["steps"]) - 1, -1, -1):
+            yield dict(d, steps=d["steps"][:i] + d["steps"][i + 1:])
+        if d.get("strat"):
+            yield dict(d, strat=False)
+        return
+    if d["k"] == "gp":
+        if len(d.get("protos", PROTOCOLS)) > 1:
+            for p in d.get("protos", PROTOCOLS):
+                yield dict(d, protos=[p])
+        for i in range(len(d["rename"])):
+            yield dict(d, rename=d["rename"][:i] + d["rename"][i + 1:])
+        if len(d["tree"]) > 1:
+            yield dict(d, tree=["ARG0"])
+            yield dict(d, tree=["ARG1"])
+        return
     if d["k"] == "tb":
         for key in ("args", "kw", "cargs", "ckw"):
             for i in range(len(d[key])):
@@ -1577,8 +2154,15 @@ def shrink(d):
             e[key] = dict((k, v) for k, v in d[key].items() if k != name)
             if "@" not in json.dumps(e.get("extra", {})) or "=" in json.dumps(e.get("extra", {})):
                 yield e
+    for name in sorted(d.get("fitinst", {})):
+        if name not in d.get("fitfill", {}):
+            yield dict(d, fitinst=dict((k, v) for k, v in d["fitinst"].items() if k != name))
+    for name in sorted(d.get("fitfill", {})):
+        yield dict(d, fitfill=dict((k, v) for k, v in d["fitfill"].items() if k != name))
+    if d.get("rename") and len(d["rename"]) > 1:
+        yield dict(d, rename=d["rename"][:-1])
     for name in sorted(d.get("inst", {})):
-        if name in d.get("fill", {}) or name in d.get("del", []):
+        if name in d.get("fill", {}) or name in d.get("del", []) or (name == "fitness" and d.get("fitinst")):
             continue
         e = dict(d)
         e["inst"] = dict((k, v) for k, v in d["inst"].items() if k != name)
